@@ -98,7 +98,8 @@ static void cpp_mode(int family, int alg, int tier)
             cpps_set_nonce(h, n0, 16);
             int c = code;
             for (int p = 0; p < depth; p++, c /= 3) {
-                int kind = c % 3, adl = (p * 5 + 3) % 12, ml = (p * 7 + chain) % 23, r;
+                int kind = c % 3, adl = (p * 5 + 3 + code) % 12, ml = (p * 7 + chain) % 23, r; if (adl < 4) adl = 0;
+                int form = (code + p + chain) % 3;     /* 0 raw pointers, 1 / 2 the byte_array overloads (two- or three-argument when there is no associated data) */
                 uint8_t exp[64], out[64];
                 /* re-keying inside a session leaves the nonce as it is (aead.h): before some operations the object gets another key, a zero-length key (= all-zero) or the first key again */
                 { static const uint8_t ZK[20]; static uint8_t K2[20]; if (!K2[0]) hx_fill(K2, 20, HX_P_DENSE, 77);
@@ -109,16 +110,16 @@ static void cpp_mode(int family, int alg, int tier)
                 refenc(family, alg, cur, ADB, adl, MSG, ml, exp);
                 hx_stat("transitions", 1);
                 if (kind == 0) {
-                    r = cpps_encrypt(h, out, MSG, ml, ADB, adl);
+                    r = form ? cpps_encrypt_ba(h, out, MSG, ml, ADB, adl, form) : cpps_encrypt(h, out, MSG, ml, ADB, adl);
                     if (r != ml + 16 || memcmp(out, exp, ml + 16)) { hx_fail(kb, "operation %d (encrypt) is not the one-shot result under the predicted nonce (carry chain %d, history code %d)", p, chain, code); break; }
                     ref_nonce_inc(cur);
                 } else if (kind == 1) {
-                    r = cpps_decrypt(h, out, exp, ml + 16, ADB, adl);
+                    r = form ? cpps_decrypt_ba(h, out, exp, ml + 16, ADB, adl, form) : cpps_decrypt(h, out, exp, ml + 16, ADB, adl);
                     if (r != ml || memcmp(out, MSG, ml)) { hx_fail(kb, "operation %d (decrypt of a valid packet under the predicted nonce) returned %d (carry chain %d, history code %d)", p, r, chain, code); break; }
                     ref_nonce_inc(cur);
                 } else {
                     exp[ml + 3] ^= 0x20;
-                    r = cpps_decrypt(h, out, exp, ml + 16, ADB, adl);
+                    r = form ? cpps_decrypt_ba(h, out, exp, ml + 16, ADB, adl, form) : cpps_decrypt(h, out, exp, ml + 16, ADB, adl);
                     if (r >= 0) { hx_fail(kb, "forged packet accepted"); break; }
                     /* nonce must be unchanged: checked by the next operation's prediction, and by a probe at the end */
                 }
